@@ -50,3 +50,38 @@ def run (comb : Int → Int → Int) : Nat → List (List KV) → List KV
     | some (r, ss') => r :: run comb fuel ss'
 
 end BS.Merge
+
+/-! ## the plain merge reader (sortio/sort.go:161-222)
+
+`NewMergeReader` keeps the same heap of cursors; each step emits the row at the heap's top — *a* cursor whose current key
+is least; which one among equals is the heap's business — and advances that cursor only.  The choice is a parameter. -/
+namespace BS.Merge
+open BS.KV
+
+/-- take the head row of stream `i` -/
+def popAt (ss : List (List KV)) (i : Nat) : Option (KV × List (List KV)) :=
+  match ss[i]? with
+  | some (r :: t) => some (r, ss.set i t)
+  | _ => none
+
+/-- `i` may be at the top of the heap: stream `i` has a row and its key is the least current key -/
+def Legal (ss : List (List KV)) (i : Nat) : Prop :=
+  ∃ r t, ss[i]? = some (r :: t) ∧ minKey ss = some r.1
+
+def mrun (choose : List (List KV) → Nat) : Nat → List (List KV) → List KV
+  | 0, _ => []
+  | fuel+1, ss =>
+    match minKey ss with
+    | none => []
+    | some _ =>
+      match popAt ss (choose ss) with
+      | none => []
+      | some (r, ss') => r :: mrun choose fuel ss'
+
+/-- one legal choice: the first stream whose current key is least -/
+def leftmost (ss : List (List KV)) : Nat :=
+  match minKey ss with
+  | none => 0
+  | some k => (ss.findIdx? fun s => match s with | (k', _) :: _ => k' == k | [] => false).getD 0
+
+end BS.Merge
